@@ -51,6 +51,8 @@ def tree_hash():
     for f in ("probe/Cargo.toml", "probe/src/main.rs", "shims/fakeclock.c", "shims/gitshim.c"):
         with open(os.path.join(VERIF, f), "rb") as fh:
             h.update(hashlib.sha256(fh.read()).digest())
+    # tools/coverage.sh builds an instrumented copy (never used by a registered check)
+    h.update((os.environ.get("ZERV_VERIF_RUSTFLAGS", "") + "|" + os.environ.get("ZERV_VERIF_TOOLCHAIN", "")).encode())
     return h.hexdigest()[:20]
 
 
@@ -117,7 +119,9 @@ def ensure(verbose=True):
         env = dict(os.environ)
         env.update(CARGO_NET_OFFLINE="true", CARGO_TARGET_DIR=TARGET)
         env.pop("RUSTFLAGS", None)
-        tc = _repo_toolchain()
+        if os.environ.get("ZERV_VERIF_RUSTFLAGS"):
+            env["RUSTFLAGS"] = os.environ["ZERV_VERIF_RUSTFLAGS"]
+        tc = os.environ.get("ZERV_VERIF_TOOLCHAIN") or _repo_toolchain()
         if tc:
             env["RUSTUP_TOOLCHAIN"] = tc
         cmd = ["cargo", "build", "--release", "--offline", "--bins"]
